@@ -272,6 +272,89 @@ def _mk_nc(rs, N, shape, nan_samples=(), k=2, level=0.6):
     return nc
 
 
+# ---- swept dimensions (all optional keys of a case; absent = the plain float64 / C-contiguous / unit 1 input) -------------
+#   unit      positive factor: evaluations and ceiling * unit, covariance * unit^2 (other physical units of the same data)
+#   edtype    dtype of the evaluation array ('int64', 'int16', 'uint8': rounded values, NaN-free cases only; 'float32')
+#   vdtype    dtype of the covariance input ('float32'; integer dtypes only where the builder makes integer-valued matrices)
+#   layout    memory layout of every array input: 'F' (Fortran order), 'strided' (every second element of a larger buffer),
+#             'reversed' (negative strides), 'readonly' (writeable=False: any in-place write by the library raises)
+#   ntype     type of n_rdm / n_pattern / dof: 'np' (np.int64), 'np32', 'float', 'npfloat'
+#   mcontainer / nccontainer   models as 'tuple' / 'single' (one Model, not in a list); ceiling as 'list' / 'tuple'
+#   names     'dup': all models carry the same name (no output may be keyed by the name)
+# The expected values are always computed from the float64 values of what was handed to the library.
+def _layout(a, layout):
+    a = np.asarray(a)
+    if not layout or layout == 'C' or a.ndim == 0:
+        return a.copy()
+    if layout == 'F':
+        return np.asfortranarray(a.copy())
+    if layout == 'strided':
+        big = np.full(tuple(2 * n for n in a.shape), 77, dtype=a.dtype)
+        view = big[tuple(slice(None, None, 2) for _ in a.shape)]
+        view[...] = a
+        return view
+    if layout == 'reversed':
+        rev = a[tuple(slice(None, None, -1) for _ in a.shape)].copy()
+        return rev[tuple(slice(None, None, -1) for _ in a.shape)]
+    if layout == 'readonly':
+        b = a.copy()
+        b.setflags(write=False)
+        return b
+    raise ValueError(layout)
+
+
+def _vary(case, E, nc, V):
+    """apply unit / edtype / vdtype of the case; returns plain (C-contiguous) arrays of the values the library will get"""
+    unit = case.get('unit', 1.0)
+    if unit != 1.0:
+        E, nc = E * unit, nc * unit
+        V = None if V is None else V * unit ** 2
+    edt = case.get('edtype')
+    if edt:
+        if edt != 'float32':
+            if np.isnan(E).any():
+                raise ValueError('integer evaluations cannot hold NaN samples (case design)')
+            info = np.iinfo(edt)
+            E = np.clip(np.round(np.abs(E) if info.min == 0 else E), info.min, info.max)
+        E = E.astype(edt)
+    vdt = case.get('vdtype')
+    if vdt and V is not None:
+        V = V.astype(vdt)
+    return E, nc, V
+
+
+def _ntyped(x, ntype):
+    if x is None or not ntype:
+        return x
+    return {'np': np.int64, 'np32': np.int32, 'float': float, 'npfloat': np.float64}[ntype](x)
+
+
+def _contained(models, nc, case):
+    mc, ncc = case.get('mcontainer'), case.get('nccontainer')
+    if mc == 'tuple':
+        models = tuple(models)
+    elif mc == 'single':
+        (models,) = models
+    if ncc == 'list':
+        nc = np.asarray(nc).tolist()
+    elif ncc == 'tuple':
+        nc = tuple(np.asarray(nc).tolist())
+    return models, nc
+
+
+def _units(case):
+    """(unit, rtol, atol factor) for comparisons of quantities in the units of the evaluations"""
+    f32 = case.get('edtype') == 'float32'
+    return case.get('unit', 1.0), (1e-5 if f32 else 1e-9), (1e6 if f32 else 1.0)
+
+
+def _vtol(case, V):
+    """(rtol, atol) for comparisons of variances"""
+    if case.get('vdtype') == 'float32':
+        return 1e-5, 1e-5 * float(np.abs(np.asarray(V, dtype=float)).max())
+    return 1e-9, 1e-12 * case.get('unit', 1.0) ** 2
+
+
 def _build(case):
     """Result + everything it was built from"""
     from rsatoolbox.inference import Result
@@ -281,29 +364,84 @@ def _build(case):
     E, nan_samples = _mk_evals(rs, N, M, tail, case.get('nan', 'none'), case.get('ties', False))
     nc = _mk_nc(rs, N, case.get('ncshape', '1d'), nan_samples, k=(tail[-1] if tail else 2), level=case.get('nclevel', 0.6))
     V = _mk_cov(rs, case.get('cov', 'matrix'), M, nc_rows, case.get('scale', 0.004))
+    E, nc, V = _vary(case, E, nc, V)
     kw = dict(dof=case.get('dof', 5), n_rdm=case.get('n_rdm'), n_pattern=case.get('n_pattern'))
-    res = Result(_models(M), E.copy(), 'corr', case.get('cvm', 'bootstrap'), nc.copy(), variances=V.copy(), **kw)
+    lay, nt = case.get('layout'), case.get('ntype')
+    models, nc_in = _contained(_models(M, names=[0] * M if case.get('names') == 'dup' else None), _layout(nc, lay), case)
+    res = Result(models, _layout(E, lay), 'corr', case.get('cvm', 'bootstrap'), nc_in, variances=_layout(V, lay),
+                 **{k: _ntyped(v, nt) for k, v in kw.items()})
     return res, E, nc, V, kw
 
 
 # ----------------------------------------------------------------------------------------------------------------------
 # oracles
 # ----------------------------------------------------------------------------------------------------------------------
-@oracle('C06/fixed-t')
-@_quiet
-def orc_fixed_t(case):
-    """eval_fixed: SEM, variances and the three t-tests are the classical across-subject statistics"""
+def _fixed_inputs(case):
+    """models, a factory of the data RDMs, and the float64 values (model vectors, data) that eval_fixed gets.
+    Swept: dscale / mscale (units of data and models), dtype (integer-valued or float32 RDM vectors), near (competitor models
+    close to model 0), dupsubj (two identical subjects), rdmdesc (extra, repeated str rdm descriptor), layout"""
     from rsatoolbox.rdm import RDMs
     from rsatoolbox.model import ModelFixed
-    from rsatoolbox.inference import eval_fixed
     rs = np.random.RandomState(case['seed'])
-    n, C, M, method = case['n_rdm'], case['n_cond'], case['M'], case['method']
+    n, C, M = case['n_rdm'], case['n_cond'], case['M']
     P = C * (C - 1) // 2
     truth = 0.2 + rs.rand(P)
     data = np.abs(truth + case.get('noise', 0.5) * rs.randn(n, P)) + 0.01
     vecs = [np.abs(truth + (0.2 + 0.5 * k) * rs.randn(P)) + 0.01 for k in range(M)]
-    models = [ModelFixed('m%d' % k, v.copy()) for k, v in enumerate(vecs)]
-    res = eval_fixed(models, RDMs(data.copy()), method=method)
+    near = case.get('near')
+    if near:
+        vecs = [vecs[0]] + [vecs[0] + near * k * (0.5 + rs.rand(P)) for k in range(1, M)]
+    if case.get('dupsubj') and n >= 3:
+        data[1] = data[0]
+    data = data * case.get('dscale', 1.0)
+    vecs = [v * case.get('mscale', 1.0) for v in vecs]
+    dt = case.get('dtype')
+    if dt:
+        if dt != 'float32':
+            data, vecs = np.round(data * 20 + 1), [np.round(v * 20 + 1) for v in vecs]
+        data, vecs = data.astype(dt), [v.astype(dt) for v in vecs]
+    lay = case.get('layout')
+    desc = {'subj': [('b', 'a', 'c')[s % 3] for s in range(n)]} if case.get('rdmdesc') else None
+    models = [ModelFixed('m%d' % k, _layout(v, lay)) for k, v in enumerate(vecs)]
+    return (models, lambda: RDMs(_layout(data, lay), rdm_descriptors=desc),
+            [np.asarray(v, dtype=float) for v in vecs], np.asarray(data, dtype=float))
+
+
+@oracle('C06/fixed-t')
+@_quiet
+def orc_fixed_t(case):
+    """eval_fixed: SEM, variances and the three t-tests are the classical across-subject statistics"""
+    from rsatoolbox.inference import eval_fixed
+    n, C, M, method = case['n_rdm'], case['n_cond'], case['M'], case['method']
+    P = C * (C - 1) // 2
+    models, mk_data, vecs, data = _fixed_inputs(case)
+    degenerate = case.get('degenerate', 1e-10)
+    model_arg = models[0] if case.get('mcontainer') == 'single' else (tuple(models) if case.get('mcontainer') == 'tuple' else models)
+    if case.get('sequence'):
+        # another data set of the same shape first: the result for `data` must not depend on what was evaluated before
+        other = _fixed_inputs(dict(case, seed=case['seed'] + 7919))
+        eval_fixed(model_arg, other[1](), method=method)
+    rdms = mk_data()
+    res = eval_fixed(model_arg, rdms, method=method)
+    if not np.array_equal(np.asarray(rdms.dissimilarities, dtype=float), data):
+        return 'eval_fixed modified the data RDMs'
+    for k, m in enumerate(models):
+        if not np.array_equal(np.asarray(m.rdm, dtype=float).ravel(), vecs[k]):
+            return f'eval_fixed modified the RDM of model {k}'
+    if case.get('sequence'):
+        held = {nm: np.asarray(v) for nm, v in (('evaluations', res.evaluations), ('model_var', res.model_var),
+                                                ('diff_var', res.diff_var), ('noise_ceil_var', res.noise_ceil_var),
+                                                ('test_pairwise', res.test_pairwise()), ('test_zero', res.test_zero()),
+                                                ('test_noise', res.test_noise()), ('sem', res.get_sem()))}
+        snap = {nm: v.copy() for nm, v in held.items()}
+        res2 = eval_fixed(model_arg, mk_data(), method=method)
+        for nm, v in (('evaluations', res2.evaluations), ('model_var', res2.model_var), ('diff_var', res2.diff_var),
+                      ('noise_ceil_var', res2.noise_ceil_var), ('test_pairwise', res2.test_pairwise()),
+                      ('test_zero', res2.test_zero()), ('test_noise', res2.test_noise()), ('sem', res2.get_sem())):
+            if not np.array_equal(np.asarray(v), snap[nm], equal_nan=True):
+                return f'the same eval_fixed call twice: {nm} differs: {_fmt(snap[nm])} then {_fmt(v)}'
+            if not np.array_equal(held[nm], snap[nm], equal_nan=True):
+                return f'{nm} held from the first eval_fixed call changed when eval_fixed was called again'
     e = np.asarray(res.evaluations)
     if e.shape != (1, M, n):
         return f'evaluations have shape {e.shape}, expected (1, {M}, {n})'
@@ -315,34 +453,35 @@ def orc_fixed_t(case):
                 if method == 'corr':
                     x, y = x - sum(x) / P, y - sum(y) / P
                 want = sum(x * y) / math.sqrt(sum(x * x) * sum(y * y))
-                if abs(want - e[k, s]) > 1e-9:
+                if abs(want - e[k, s]) > (1e-5 if case.get('dtype') == 'float32' else 1e-9):
                     return f'evaluation of model {k} on subject {s}: {e[k, s]!r}, literal {method} gives {want!r}'
     if res.dof != n - 1:
         return f'dof {res.dof}, expected n_rdm - 1 = {n - 1}'
     mean = np.array([sum(e[k]) / n for k in range(M)])
     s2 = np.array([sum((e[k] - mean[k]) ** 2) / (n - 1) for k in range(M)])
-    if s2.min() < 1e-10:
+    if s2.min() < degenerate:
         return None         # degenerate sample (no classical t statistic)
     if not _same(res.get_means(), mean):
         return f'get_means {_fmt(res.get_means())} != across-subject means {_fmt(mean)}'
-    if not _same(res.get_sem(), np.sqrt(s2 / n)):
+    vr, va = case.get('vrtol', 1e-9), case.get('vatol', 1e-12)
+    if not _same(res.get_sem(), np.sqrt(s2 / n), vr, va):
         return f'get_sem {_fmt(res.get_sem())} != s/sqrt(n) = {_fmt(np.sqrt(s2 / n))}'
-    if not _same(res.model_var, s2 / n):
+    if not _same(res.model_var, s2 / n, vr, va):
         return f'model_var {_fmt(res.model_var)} != s^2/n = {_fmt(s2 / n)}'
     dvar = []
     for i, j in _pairs(M):
         d = e[i] - e[j]
         dm = sum(d) / n
         dvar.append(sum((d - dm) ** 2) / (n - 1) / n)
-    if not _same(res.diff_var, np.array(dvar).reshape(len(dvar))):
+    if not _same(res.diff_var, np.array(dvar).reshape(len(dvar)), vr, va):
         return f'diff_var {_fmt(res.diff_var)} != var(e_i - e_j)/n = {_fmt(dvar)}'
-    if not _same(res.noise_ceil_var, np.array([s2 / n, s2 / n]).T):
+    if not _same(res.noise_ceil_var, np.array([s2 / n, s2 / n]).T, vr, va):
         return f'noise_ceil_var {_fmt(res.noise_ceil_var)} != s^2/n per model (fixed ceiling)'
     ncl = _spec_nanmean(np.asarray(res.noise_ceiling)[0])
     pp, pz, pn = res.test_pairwise(), res.test_zero(), res.test_noise()
     want_pp = np.ones((M, M))
     for (i, j), dv in zip(_pairs(M), dvar):
-        if dv < 1e-12:
+        if dv < min(1e-12, degenerate):
             return None
         p_sc = sst.ttest_rel(e[i], e[j]).pvalue
         t = (mean[i] - mean[j]) / math.sqrt(dv)
@@ -385,22 +524,34 @@ def orc_contrasts(case):
     M, nc, kind = case['M'], case['ncrows'], case['cov']
     n_rdm, n_pattern = case.get('n_rdm'), case.get('n_pattern')
     V = _mk_cov(rs, kind, M, nc, 1.0)
-    keep = V.copy()
-    want = _expected_variances(V, M, nc, n_rdm, n_pattern)
+    vdt = case.get('vdtype')
+    if vdt and vdt != 'float32':
+        # integer-valued covariance; 'small' keeps every contrast (and every intermediate) inside the range of the dtype
+        V = np.round((np.abs(V) if vdt.startswith('uint') else V) * case.get('vmul', 4))
+        V = np.clip(V, np.iinfo(vdt).min, np.iinfo(vdt).max)
+    V = np.asarray(_vary(case, np.zeros(1), np.zeros(1), V)[2])
+    if case.get('container') == 'npfloat':
+        V = np.float64(V)       # numpy scalar (what np.var returns) instead of a 0-D array
+    else:
+        V = _layout(V, case.get('layout'))
+    keep = np.array(V, dtype=float)
+    want = _expected_variances(keep, M, nc, n_rdm, n_pattern)
+    nt = case.get('ntype')
     if case['route'] == 'Result':
         E = rs.randn(5, M)
         res = Result(_models(M), E, 'corr', 'bootstrap', np.array([0.5, 0.6]), variances=V, dof=3,
-                     n_rdm=n_rdm, n_pattern=n_pattern)
+                     n_rdm=_ntyped(n_rdm, nt), n_pattern=_ntyped(n_pattern, nt))
         got = (res.model_var, res.diff_var, res.noise_ceil_var)
     else:
-        got = extract_variances(V, nc, n_rdm, n_pattern)
-    if not np.array_equal(V, keep):
+        got = extract_variances(V, nc, _ntyped(n_rdm, nt), _ntyped(n_pattern, nt))
+    if not np.array_equal(np.asarray(V, dtype=float), keep):
         return 'the covariance input was modified'
+    vr, va = _vtol(case, keep)
     for nm, g, w in zip(('model_var', 'diff_var', 'noise_ceil_var'), got, want):
         g = np.asarray(g, dtype=float)
         if g.shape != w.shape:
             return f'{nm}: shape {g.shape}, expected {w.shape}'
-        if not _same(g, w):
+        if not _same(g, w, vr, va):
             return (f'{nm} = {_fmt(g)} is not the contrast of the stored covariance times n/(n-1) = '
                     f'{_spec_factor(n_rdm, n_pattern)!r}: expected {_fmt(w)}')
     return None
@@ -418,8 +569,17 @@ def _dual_inputs(case):
     elif mode == 'mixed':
         s1, s2 = case['s1'], case['s2']
         V = np.array([base, s1 * base + 0.2 * _psd(rs, n, 1.0), s2 * base + 0.2 * _psd(rs, n, 1.0)])
+    elif mode == 'zero':    # trivial competitor: no variance at all
+        V = np.zeros((3, n, n))
+    elif mode == 'additive':    # the two single-factor estimates add up to the two-factor one exactly (binary fractions)
+        s1 = case['s1']
+        V = np.array([base, s1 * base, base - s1 * base])
     else:   # three unrelated covariance estimates (noisy bootstrap): single factors above and below the two-factor one
         V = np.array([base, _psd(rs, n, case.get('s1', 1.0)), _psd(rs, n, case.get('s2', 1.0))])
+    vdt = case.get('vdtype')
+    if vdt and vdt != 'float32':
+        V = np.round(V * 40)        # integer-valued stack
+    V = np.asarray(_vary(case, np.zeros(1), np.zeros(1), V)[2])
     return rs, V
 
 
@@ -430,10 +590,10 @@ def _dual_outputs(case, rs, V):
     n_rdm, n_pattern = case.get('n_rdm'), case.get('n_pattern')
     if case['route'] == 'Result':
         E = rs.randn(6, M, 2)
-        res = Result(_models(M), E, 'corr', 'dual_bootstrap', np.array([0.5, 0.6]), variances=V.copy(), dof=2,
-                     n_rdm=n_rdm, n_pattern=n_pattern)
+        res = Result(_models(M), E, 'corr', 'dual_bootstrap', np.array([0.5, 0.6]), variances=_layout(V, case.get('layout')),
+                     dof=2, n_rdm=n_rdm, n_pattern=n_pattern)
         return (res.model_var, res.diff_var, res.noise_ceil_var), res.get_sem()
-    got = extract_variances(V.copy(), nc, n_rdm, n_pattern)
+    got = extract_variances(_layout(V, case.get('layout')), nc, n_rdm, n_pattern)
     return got, None
 
 
@@ -445,6 +605,9 @@ def orc_dual_bounds(case):
     n_rdm, n_pattern = case.get('n_rdm'), case.get('n_pattern')
     rs, V = _dual_inputs(case)
     got, sem = _dual_outputs(case, rs, V)
+    V = np.asarray(V, dtype=float)
+    u2 = case.get('unit', 1.0) ** 2
+    rel = 1e-5 if case.get('vdtype') == 'float32' else 1e-12
     parts = [_spec_contrasts(V[k], M, nc) for k in range(3)]
     if n_rdm is None or n_pattern is None:
         cr = cp = 1.0
@@ -457,7 +620,7 @@ def orc_dual_bounds(case):
             return f'{nm}: shape {g.shape}, expected {v0.shape}'
         if np.isnan(g).any():
             return f'{nm}: NaN in {_fmt(g)}'
-        tol = 1e-12 * np.maximum(1.0, np.abs(v0))
+        tol = rel * np.maximum(float(np.abs(V).max()) if rel > 1e-12 else u2, np.abs(v0))
         over = g > v0 + tol
         if over.any():
             ix = tuple(np.argwhere(over)[0])
@@ -472,7 +635,7 @@ def orc_dual_bounds(case):
     if sem is not None:
         if (np.asarray(sem) < 0).any() or np.isnan(sem).any():
             return f'get_sem {_fmt(sem)} negative / NaN'
-        if (np.asarray(sem) ** 2 > parts[0][0] * (1 + 1e-9) + 1e-15).any():
+        if (np.asarray(sem, dtype=float) ** 2 > parts[0][0] * (1 + max(1e-9, rel)) + 1e-15 * u2).any():
             return f'get_sem^2 {_fmt(np.asarray(sem) ** 2)} exceeds the two-factor model variance {_fmt(parts[0][0])}'
     return None
 
@@ -486,6 +649,8 @@ def orc_dual_formula(case):
     n_rdm, n_pattern = case.get('n_rdm'), case.get('n_pattern')
     rs, V = _dual_inputs(case)
     got, _ = _dual_outputs(case, rs, V)
+    V = np.asarray(V, dtype=float)
+    vr, va = _vtol(case, V)
     parts = [_spec_contrasts(V[k], M, nc) for k in range(3)]
     for k, nm in enumerate(('model_var', 'diff_var', 'noise_ceil_var')):
         v0, v1, v2 = parts[0][k], parts[1][k], parts[2][k]
@@ -497,7 +662,7 @@ def orc_dual_formula(case):
             a, b = cr * v1, cp * v2
             raw = a + b - cr * cp * (v0 - v1 - v2)
         want = np.minimum(np.maximum(np.maximum(raw, a), b), v0)
-        if not _same(got[k], want):
+        if not _same(got[k], want, vr, va):
             return f'{nm} = {_fmt(got[k])}, documented dual-bootstrap combination gives {_fmt(want)}'
     return None
 
@@ -522,30 +687,35 @@ def orc_t_coherence(case):
     M = case['M']
     means = _spec_mean(E)
     mv, dv, cv = (np.asarray(x, dtype=float) for x in (res.model_var, res.diff_var, res.noise_ceil_var))
+    u2 = case.get('unit', 1.0) ** 2
     if case.get('cov') != 'stack':
         want = _expected_variances(V, M, case.get('ncrows', True), kw['n_rdm'], kw['n_pattern'])
+        vr, va = _vtol(case, V)
         for nm, g, w in zip(('model_var', 'diff_var', 'noise_ceil_var'), (mv, dv, cv), want):
-            if not _same(g, w):
+            if not _same(g, w, vr, va):
                 return f'{nm} {_fmt(g)} != contrast of the stored covariance {_fmt(w)}'
-    if min(mv.min(), cv.min(), dv.min() if len(dv) else 1) < 1e-10:
+    if min(mv.min(), cv.min(), dv.min() if len(dv) else u2) < 1e-10 * u2:
         return None
     ncl = _spec_nanmean(nc[0])
     want = _spec_t_pvalues(means, mv, dv, cv, ncl, kw['dof'])
     got = (res.test_pairwise('t-test'), res.test_zero('t-test'), res.test_noise('t-test'))
     names = ('test_pairwise', 'test_zero', 'test_noise')
+    pr, pa = (1e-3, 1e-5) if case.get('edtype') == 'float32' else (1e-7, 1e-9)
     for nm, g, w in zip(names, got, want):
-        if not _same(g, w, 1e-7, 1e-9):
+        if not _same(g, w, pr, pa):
             return (f'{nm} {_fmt(g)} != t-tail of the mean effect over sqrt(reported variance), dof={kw["dof"]}: '
-                    f'{_fmt(w)} (means {_fmt(means)}, lower ceiling {ncl!r})')
+                    f'{_fmt(w)} (means {_fmt(means)}, lower ceiling {ncl!r}, model_var {_fmt(mv)})')
     for nm, g, w in zip(names, res.test_all('t-test'), want):
-        if not _same(g, w, 1e-7, 1e-9):
+        if not _same(g, w, pr, pa):
             return f'test_all/{nm} {_fmt(g)} != {_fmt(w)}'
     for nm, g, w in zip(names, res.test_all(), want):
-        if not _same(g, w, 1e-7, 1e-9):
+        if not _same(g, w, pr, pa):
             return f'test_all() default/{nm} {_fmt(g)} != {_fmt(w)}'
-    direct = iu.all_tests(E.copy(), nc.copy(), 't-test', model_var=mv, diff_var=dv, noise_ceil_var=cv, dof=kw['dof'])
+    lay = case.get('layout')
+    direct = iu.all_tests(_layout(E, lay), _layout(nc, lay), 't-test', model_var=mv, diff_var=dv, noise_ceil_var=cv,
+                          dof=_ntyped(kw['dof'], case.get('ntype')))
     for nm, g, w in zip(names, direct, want):
-        if not _same(g, w, 1e-7, 1e-9):
+        if not _same(g, w, pr, pa):
             return f'all_tests/{nm} {_fmt(g)} != {_fmt(w)}'
     return None
 
@@ -570,9 +740,10 @@ def orc_p_range(case):
             if r:
                 return r
         allp = res.test_all(tt)
-        wr = (iu.pair_tests(E.copy(), tt, res.diff_var, kw['dof']),
-              iu.zero_tests(E.copy(), tt, res.model_var, kw['dof']),
-              iu.nc_tests(E.copy(), nc.copy(), tt, res.noise_ceil_var, kw['dof']))
+        lay = case.get('layout')
+        wr = (iu.pair_tests(_layout(E, lay), tt, res.diff_var, kw['dof']),
+              iu.zero_tests(_layout(E, lay), tt, res.model_var, kw['dof']),
+              iu.nc_tests(_layout(E, lay), _layout(nc, lay), tt, res.noise_ceil_var, kw['dof']))
         for nm, a, b, c in zip(('pairwise', 'zero', 'noise'), trio, allp, wr):
             if not _same(a, b, 1e-12, 1e-14):
                 return f'{tt}: test_{nm} {_fmt(a)} != test_all {_fmt(b)}'
@@ -594,6 +765,7 @@ def _boot_case_arrays(case):
     elif special == 'nc-all-above':
         E[:, 0] = np.abs(E[:, 0]) + 2.0
     nc = _mk_nc(rs, N, case.get('ncshape', '1d'))
+    E, nc, _ = _vary(case, E, nc, None)
     return rs, E, nc
 
 
@@ -604,12 +776,14 @@ def _call_boot(case, E, nc, which):
     M = case['M']
     if case.get('route', 'Result') == 'Result':
         V = _psd(np.random.RandomState(1), M + 2, 0.004)
-        res = Result(_models(M), E.copy(), 'corr', 'bootstrap', nc.copy(), variances=V, dof=3, n_rdm=4)
+        res = Result(_models(M), _layout(E, case.get('layout')), 'corr', 'bootstrap', _layout(nc, case.get('layout')),
+                     variances=V, dof=3, n_rdm=4)
         return dict(pairwise=lambda: res.test_pairwise('bootstrap'), zero=lambda: res.test_zero('bootstrap'),
                     noise=lambda: res.test_noise('bootstrap'), all=lambda: res.test_all('bootstrap'))[which]()
-    return dict(pairwise=lambda: iu.pair_tests(E.copy(), 'bootstrap'), zero=lambda: iu.zero_tests(E.copy(), 'bootstrap'),
-                noise=lambda: iu.nc_tests(E.copy(), nc.copy(), 'bootstrap'),
-                all=lambda: iu.all_tests(E.copy(), nc.copy(), 'bootstrap'))[which]()
+    lay = case.get('layout')
+    return dict(pairwise=lambda: iu.pair_tests(_layout(E, lay), 'bootstrap'), zero=lambda: iu.zero_tests(_layout(E, lay), 'bootstrap'),
+                noise=lambda: iu.nc_tests(_layout(E, lay), _layout(nc, lay), 'bootstrap'),
+                all=lambda: iu.all_tests(_layout(E, lay), _layout(nc, lay), 'bootstrap'))[which]()
 
 
 def _spec_boot_pair(E2):
@@ -646,7 +820,7 @@ def _bracket_problem(name, p, counts, N):
 def orc_bootstrap_formulas(case):
     rs, E, nc = _boot_case_arrays(case)
     M, N = case['M'], case['N']
-    E2 = E
+    E2 = np.asarray(E, dtype=float)
     while E2.ndim > 2:
         E2 = E2.mean(axis=-1)
     which = case.get('which', 'pairwise')
@@ -746,15 +920,19 @@ def orc_monotone(case):
     E, _ = _mk_evals(rs, N, M, tail, case.get('nan', 'none'))
     nc = _mk_nc(rs, N, '1d')
     V = _psd(rs, M + 2, case.get('scale', 0.004))
+    E, nc, V = _vary(case, E, nc, V)
+    unit = case.get('unit', 1.0)
     tgt = case['target']
     other = (tgt + 1) % M
-    deltas = sorted(case['deltas'])
+    deltas = sorted(d * unit for d in case['deltas'])
     base = _spec_mean(E)
     ncl = float(nc[0])
     rows = []
     for d in deltas:
-        Ed = E.copy()
+        Ed = np.array(E, dtype=float)
         Ed[:, tgt] += d
+        if case.get('edtype') and case['edtype'] != 'float32':
+            Ed = np.round(Ed).astype(case['edtype'])
         if case['route'] == 'Result':
             res = Result(_models(M), Ed, 'corr', 'bootstrap', nc.copy(), variances=V.copy(), dof=dof, n_rdm=6, n_pattern=9)
             pp, pz, pn = res.test_pairwise(), res.test_zero(), res.test_noise()
@@ -780,7 +958,7 @@ def orc_monotone(case):
                           ('noise ceiling', lambda d: abs(base[tgt] + d - ncl), lambda r: r[3][tgt])):
         seq = sorted(((eff(r[0]), pick(r), r[0]) for r in rows), key=lambda x: x[0])
         for (e0, p0, d0), (e1, p1, d1) in zip(seq, seq[1:]):
-            if e1 > e0 * (1 + 1e-9) + 1e-12 and p1 > p0 + tol:
+            if e1 > e0 * (1 + 1e-9) + 1e-12 * unit and p1 > p0 + tol:
                 return (f'{nm} test: |effect| {e1!r} (shift {d1}) > {e0!r} (shift {d0}) at equal variance but '
                         f'p {p1!r} > {p0!r}')
     return None
@@ -800,12 +978,15 @@ def orc_means(case):
         E[s, k] = np.nan
     nc = _mk_nc(rs, N, '1d')
     V = _psd(rs, M + 2, 0.004)
-    res = Result(_models(M), E.copy(), 'corr', case['cvm'], nc, variances=V, dof=3, n_rdm=4)
+    E, nc, V = _vary(case, E, nc, V)
+    lay = case.get('layout')
+    res = Result(_models(M), _layout(E, lay), 'corr', case['cvm'], _layout(nc, lay), variances=_layout(V, lay), dof=3, n_rdm=4)
     got = np.asarray(res.get_means(), dtype=float)
     want = _spec_mean(E)
     if got.shape != want.shape:
         return f'get_means has shape {got.shape}, expected one value per model ({M},)'
-    if not _same(got, want):
+    u, rt, af = _units(case)
+    if not _same(got, want, rt, 1e-12 * af * u):
         return f'get_means {_fmt(got)} != NaN-aware averages of the evaluations {_fmt(want)} (cv_method {case["cvm"]})'
     return None
 
@@ -824,21 +1005,22 @@ def orc_sem_ci(case):
     if np.isnan(sem).any() or (sem < 0).any():
         return f'get_sem {_fmt(sem)} has negative / NaN entries (model_var {_fmt(mv)})'
     want = np.array([math.sqrt(v) if v > 0 else 0.0 for v in mv])
-    if not _same(sem, want):
+    u, rt, af = _units(case)
+    if not _same(sem, want, 1e-6 if case.get('vdtype') == 'float32' else 1e-9, 1e-12 * u):
         return f'get_sem {_fmt(sem)} != sqrt(max(model_var, 0)) = {_fmt(want)}'
     if case.get('cov') not in ('stack',):
         wmv = _expected_variances(V, M, case.get('ncrows', True), kw['n_rdm'], kw['n_pattern'])[0]
-        if not _same(mv, wmv):
+        if not _same(mv, wmv, *_vtol(case, V)):
             return f'model_var {_fmt(mv)} != {_fmt(wmv)}'
     means = _spec_mean(E)
     for cip in case.get('ci', (0.95,)):
         cut = (1 - cip) / 2
         lo, hi = (np.asarray(x, dtype=float) for x in res.get_ci(cip, 't-test'))
         half = sem * sst.t.ppf(1 - cut, kw['dof'])
-        if not (_same(lo, means - half, 1e-8, 1e-10) and _same(hi, means + half, 1e-8, 1e-10)):
+        if not (_same(lo, means - half, max(rt, 1e-8), 1e-10 * af * u) and _same(hi, means + half, max(rt, 1e-8), 1e-10 * af * u)):
             return (f'get_ci({cip}) = [{_fmt(lo)}, {_fmt(hi)}], expected mean -/+ sem * t_({1 - cut}, dof={kw["dof"]}) = '
                     f'[{_fmt(means - half)}, {_fmt(means + half)}]')
-        if (lo > means + 1e-12).any() or (hi < means - 1e-12).any():
+        if (lo > means + 1e-12 * af * u).any() or (hi < means - 1e-12 * af * u).any():
             return f'get_ci({cip}): not lo <= mean <= hi: lo {_fmt(lo)}, mean {_fmt(means)}, hi {_fmt(hi)}'
         if case.get('nan', 'none') in ('none', 'folds') and cut * (N + 1) >= 1:
             lo, hi = (np.asarray(x, dtype=float) for x in res.get_ci(cip, 'bootstrap'))
@@ -914,10 +1096,16 @@ def orc_equivariance(case):
             return f'output {nm} contains NaN: {_fmt(v)}'
     perms = case.get('perms')
     perms = list(itertools.permutations(range(M))) if perms is None else [tuple(p) for p in perms]
+    u, lay = case.get('unit', 1.0), case.get('layout')
+
+    def atol(nm):
+        if nm in ('model_var', 'noise_ceil_var', 'diff_var'):
+            return 1e-12 * u * u
+        return 1e-12 * u if (nm in ('means', 'sem') or nm.startswith(('ci', 'bci'))) else 1e-12
     for order in perms:
         order = list(order)
-        r2 = Result(_models(M, names=order), E[:, order].copy(), 'corr', case.get('cvm', 'bootstrap'), nc.copy(),
-                    variances=_perm_cov(V, order, M, ncrows), **kw)
+        r2 = Result(_models(M, names=[0] * M if case.get('names') == 'dup' else order), _layout(E[:, order], lay), 'corr',
+                    case.get('cvm', 'bootstrap'), _layout(nc, lay), variances=_layout(_perm_cov(V, order, M, ncrows), lay), **kw)
         got = _outputs(r2, tests, cis, bci)
         for nm, g in got.items():
             if not selected(nm):
@@ -927,9 +1115,144 @@ def orc_equivariance(case):
                 w = w[np.ix_(order, order)]
             else:
                 w = w[order]
-            if not _same(g, w, 1e-9, 1e-12):
+            if not _same(g, w, 1e-9, atol(nm)):
                 return (f'{nm} is not permuted with the model order {order}: got {_fmt(g)}, expected {_fmt(w)} '
                         f'(identity order: {_fmt(ref[nm])})')
+    return None
+
+
+def _bitwise(a, b):
+    a, b = np.asarray(a), np.asarray(b)
+    return a.shape == b.shape and bool(np.array_equal(a, b, equal_nan=True))
+
+
+@oracle('C06/call-sequence')
+@_quiet
+def orc_call_sequence(case):
+    """every output is a function of the inputs of THAT Result only: the same call twice gives bit-identical values, values
+    held by the caller do not change when the library is used on other data of the same shape, a Result built after another
+    one of the same shape reports its own (spec) values, and no call changes its inputs"""
+    from rsatoolbox.util import inference_util as iu
+    tests, cis = case['tests'], (0.9,)
+    M = case['M']
+    bci = case.get('nan', 'none') == 'none' and 0.05 * (case['N'] + 1) >= 1
+    resA, EA, ncA, VA, kw = _build(case)
+    first = _outputs(resA, tests, cis, bci)     # float64 arrays are handed through as returned by the library
+    held = {'model_var': resA.model_var, 'diff_var': resA.diff_var, 'noise_ceil_var': resA.noise_ceil_var,
+            'means': resA.get_means(), 'sem': resA.get_sem(), 'pairwise': resA.test_pairwise(tests[0])}
+    snap = {k: np.array(v, copy=True) for k, v in first.items()}
+    held_snap = {k: np.array(v, copy=True) for k, v in held.items()}
+    stored = (np.array(resA.evaluations, copy=True), np.array(resA.noise_ceiling, copy=True), np.array(resA.variances, copy=True))
+    # another Result of the same shapes and parameters, other content: must report ITS values
+    resB, EB, ncB, VB, _ = _build(dict(case, seed=case['seed'] + 104729))
+    outB = _outputs(resB, tests, cis, bci)
+    u, rt, af = _units(case)
+    if not _same(outB['means'], _spec_mean(EB), rt, 1e-12 * af * u):
+        return (f'second Result of the same shape: get_means {_fmt(outB["means"])} != NaN-aware averages of ITS evaluations '
+                f'{_fmt(_spec_mean(EB))} (first Result: {_fmt(snap["means"])})')
+    if case.get('cov') != 'stack':
+        want = _expected_variances(VB, M, case.get('ncrows', True), kw['n_rdm'], kw['n_pattern'])
+        D = np.zeros((M, M))
+        for (i, j), v in zip(_pairs(M), want[1]):
+            D[i, j] = D[j, i] = v
+        for nm, w in (('model_var', want[0]), ('diff_var', D), ('noise_ceil_var', want[2])):
+            if not _same(outB[nm], w, *_vtol(case, VB)):
+                return f'second Result of the same shape: {nm} {_fmt(outB[nm])} != contrasts of ITS covariance {_fmt(w)}'
+    if 'bootstrap' in tests:
+        E2 = np.asarray(EB, dtype=float)
+        while E2.ndim > 2:
+            E2 = E2.mean(axis=-1)
+        if not np.isnan(E2).any() and not _same(outB['bootstrap/pairwise'], _spec_boot_pair(E2), 1e-12, 1e-13):
+            return (f'second Result of the same shape: bootstrap pairwise p {_fmt(outB["bootstrap/pairwise"])} != '
+                    f'{_fmt(_spec_boot_pair(E2))} of ITS samples')
+    # wrappers on bare arrays (read-only where the case says so): inputs unchanged
+    lay = case.get('layout')
+    Ein, ncin = _layout(EA, lay), _layout(ncA, lay)
+    mv, dv, cv = (np.array(x, copy=True) for x in (resA.model_var, resA.diff_var, resA.noise_ceil_var))
+    for a in (mv, dv, cv):
+        a.setflags(write=False)
+    for tt in tests:
+        iu.all_tests(Ein, ncin, tt, mv, dv, cv, kw['dof'])
+        iu.pair_tests(Ein, tt, dv, kw['dof'])
+        iu.zero_tests(Ein, tt, mv, kw['dof'])
+        iu.nc_tests(Ein, ncin, tt, cv, kw['dof'])
+        if not (_bitwise(Ein, EA) and _bitwise(ncin, ncA)):
+            return f'{tt}: the test wrappers modified the evaluations / noise ceiling they were given'
+    Vin = _layout(VA, lay)
+    iu.extract_variances(Vin, case.get('ncrows', True) and np.ndim(Vin) > 0, kw['n_rdm'], kw['n_pattern'])
+    if not _bitwise(Vin, VA):
+        return 'extract_variances modified the covariance it was given'
+    # the first Result again
+    again = _outputs(resA, tests, cis, bci)
+    for nm in snap:
+        if not _bitwise(again[nm], snap[nm]):
+            return f'the same call twice (another Result used in between): {nm} {_fmt(snap[nm])} then {_fmt(again[nm])}'
+        if not _bitwise(first[nm], snap[nm]):
+            return f'{nm} held by the caller changed while the library was used on other data: {_fmt(snap[nm])} -> {_fmt(first[nm])}'
+    for nm in held:
+        if not _bitwise(held[nm], held_snap[nm]):
+            return f'{nm} held by the caller changed while the library was used on other data'
+    for nm, now, before in zip(('evaluations', 'noise_ceiling', 'variances'),
+                               (resA.evaluations, resA.noise_ceiling, resA.variances), stored):
+        if not _bitwise(now, before):
+            return f'Result.{nm} changed by calling the tests / accessors'
+    # a new Result from the same inputs, after the other one: bit-identical
+    fresh = _outputs(_build(case)[0], tests, cis, bci)
+    for nm in snap:
+        if not _bitwise(fresh[nm], snap[nm]):
+            return f'a second Result built from the same inputs gives another {nm}: {_fmt(snap[nm])} vs {_fmt(fresh[nm])}'
+    return None
+
+
+def _probe(case):
+    """outputs of a fixed evaluation and of the tests / accessors of seeded Results as float.hex strings (exact)"""
+    from rsatoolbox.inference import eval_fixed
+    out = {}
+    for k, sub in enumerate(case['cases']):
+        res = _build(sub)[0]
+        bci = sub.get('nan', 'none') == 'none' and 0.05 * (sub['N'] + 1) >= 1
+        for nm, v in _outputs(res, sub['tests'], (0.9,), bci).items():
+            out[f'{k}/{nm}'] = [float(x).hex() for x in np.ravel(v)]
+    for k, sub in enumerate(case.get('fixed', ())):
+        models, mk_data, _, _ = _fixed_inputs(sub)
+        res = eval_fixed(models, mk_data(), method=sub['method'])
+        for nm, v in (('evaluations', res.evaluations), ('variances', res.variances), ('noise_ceiling', res.noise_ceiling),
+                      ('model_var', res.model_var), ('diff_var', res.diff_var), ('noise_ceil_var', res.noise_ceil_var),
+                      ('sem', res.get_sem()), ('means', res.get_means())) + tuple(zip(('pairwise', 'zero', 'noise'), res.test_all())):
+            out[f'fixed{k}/{nm}'] = [float(x).hex() for x in np.ravel(np.asarray(v, dtype=float))]
+    return out
+
+
+_probe_quiet = _quiet(_probe)
+
+
+@oracle('C06/hashseed')
+@_quiet
+def orc_hashseed(case):
+    """a new interpreter with another PYTHONHASHSEED computes bit-identical outputs"""
+    import json
+    import os
+    import subprocess
+    import sys
+    import rsatoolbox
+    here = _probe(case)
+    src = os.path.dirname(os.path.dirname(os.path.abspath(rsatoolbox.__file__)))
+    root = os.path.dirname(os.path.dirname(os.path.abspath(__file__)))
+    env = dict(os.environ, PYTHONHASHSEED=str(case['hashseed']), PYTHONPATH=src + os.pathsep + root, MPLBACKEND='Agg',
+               PYTHONDONTWRITEBYTECODE='1')
+    code = ('import json, sys; from contracts.C06_c import _probe_quiet; '
+            'print("PROBE" + json.dumps(_probe_quiet(json.loads(sys.argv[1]))))')
+    p = subprocess.run([sys.executable, '-c', code, json.dumps(case)], env=env, capture_output=True, text=True, timeout=600)
+    lines = [ln for ln in p.stdout.splitlines() if ln.startswith('PROBE')]
+    if p.returncode != 0 or len(lines) != 1:
+        return f'interpreter with PYTHONHASHSEED={case["hashseed"]} failed (exit {p.returncode}): {p.stderr.strip()[-400:]}'
+    there = json.loads(lines[0][5:])
+    if sorted(there) != sorted(here):
+        return f'other outputs under PYTHONHASHSEED={case["hashseed"]}: {sorted(set(there) ^ set(here))}'
+    for nm in sorted(here):
+        if there[nm] != here[nm]:
+            return (f'{nm} differs in a new interpreter with PYTHONHASHSEED={case["hashseed"]}: '
+                    f'{[float.fromhex(x) for x in there[nm]][:6]} vs {[float.fromhex(x) for x in here[nm]][:6]} here')
     return None
 
 
@@ -937,10 +1260,335 @@ def orc_equivariance(case):
 # domains
 # ----------------------------------------------------------------------------------------------------------------------
 TAILS = {2: (), 3: (4,), 4: (3, 2), 5: (2, 2, 3)}
+SINGLETON_TAILS = ((1,), (1, 1), (3, 1), (1, 4), (1, 1, 1))
+LAYOUTS = ('F', 'strided', 'reversed', 'readonly')
+NTYPES = ('np', 'np32', 'float', 'npfloat')
+SWEEP_DOC = (' | sweeps: units (evaluations x 1e-26..1e12, covariance x unit^2), integer / uint8 / int16 / float32 typed inputs, '
+             'Fortran / strided / reversed / read-only arrays, tuple / single-model / list containers, numpy-typed n and dof, '
+             'single-element dimensions and 1..2 samples, duplicate model names')
+
+
+def _sweeps(thorough):
+    """additional registrations along the dimensions the plain domains do not vary; name of the Bounded -> list of
+    (oracle, case, input_class, function).  Registrations behind `if False:  # pending triage` fail on the unchanged tree and
+    wait for a decision (repair or record as a known finding); see the module docstring."""
+    sw = {}
+
+    def add(name, orc, case, ic, fn):
+        sw.setdefault(name, []).append((orc, case, ic, fn))
+    seeds = 3 if thorough else 1
+
+    # ---- eval_fixed ---------------------------------------------------------------------------------------------------------
+    methods = ('cosine', 'corr', 'spearman', 'tau-a', 'rho-a', 'cosine_cov', 'corr_cov') if thorough else ('cosine', 'corr', 'spearman')
+    k = 0
+    for seed in range(seeds):
+        for dscale, mscale in ((1e-26, 1.0), (1e-12, 1e12), (1.0, 1e-26), (1e6, 1e6), (1e12, 1e-12), (1e-26, 1e-26)):
+            for method in methods:
+                k += 1
+                add('C06/fixed-t', orc_fixed_t, dict(seed=9000 + k, n_rdm=(3, 5, 8)[k % 3], n_cond=4 + k % 3, M=1 + k % 4, method=method,
+                                                     noise=0.5, dscale=dscale, mscale=mscale), 'extreme-units', 'eval_fixed')
+        for dt in ('int64', 'int16', 'uint8', 'float32'):
+            for method in methods:
+                k += 1
+                add('C06/fixed-t', orc_fixed_t, dict(seed=9000 + k, n_rdm=(4, 6, 3)[k % 3], n_cond=5 + k % 2, M=2 + k % 3, method=method,
+                                                     noise=(0.5, 1.0)[k % 2], dtype=dt), f'dtype={dt}', 'eval_fixed')
+        for extra, ic in ([(dict(layout=lay), 'layout') for lay in LAYOUTS]
+                          + [(dict(mcontainer='tuple', M=2), 'models-tuple'), (dict(mcontainer='tuple', M=3), 'models-tuple'),
+                             (dict(mcontainer='single', M=1), 'single-model-not-in-list'), (dict(rdmdesc=True), 'repeated-str-rdm-descriptor'),
+                             (dict(dupsubj=True, n_rdm=4), 'identical-subjects'), (dict(dupsubj=True, n_rdm=3), 'identical-subjects')]):
+            for method in (('cosine', 'corr', 'spearman') if thorough else (('cosine', 'corr')[k % 2],)):
+                k += 1
+                add('C06/fixed-t', orc_fixed_t, dict(dict(seed=9000 + k, n_rdm=(3, 5, 7)[k % 3], n_cond=4 + k % 3, M=1 + k % 3, method=method,
+                                                          noise=0.5), **extra), ic, 'eval_fixed')
+        for n_cond, nr, M in ((3, 2, 1), (3, 3, 2), (3, 6, 3), (3, 9, 4)) + (((12, 30, 6), (9, 17, 8)) if thorough else ((10, 21, 6),)):
+            for method in (methods if thorough or n_cond == 3 else ('corr',)):
+                k += 1
+                add('C06/fixed-t', orc_fixed_t, dict(seed=9000 + k, n_rdm=nr, n_cond=n_cond, M=M, method=method, noise=0.5),
+                    'three-conditions' if n_cond == 3 else 'larger-sizes', 'eval_fixed')
+        for near in (1e-2, 1e-4):
+            for method in ('cosine', 'corr'):
+                k += 1
+                add('C06/fixed-t', orc_fixed_t, dict(seed=9000 + k, n_rdm=(4, 7)[k % 2], n_cond=5, M=2 + k % 2, method=method, noise=0.5,
+                                                     near=near, degenerate=1e-30, vatol=1e-12 * near ** 2, vrtol=1e-6),
+                    'close-competitor-models', 'eval_fixed')
+        for noise in (1e-3, 1e-5):
+            for method in ('cosine', 'corr'):
+                k += 1
+                add('C06/fixed-t', orc_fixed_t, dict(seed=9000 + k, n_rdm=(4, 7)[k % 2], n_cond=5, M=2 + k % 2, method=method, noise=noise,
+                                                     degenerate=1e-26, vatol=1e-12 * noise ** 2, vrtol=1e-5), 'low-noise', 'eval_fixed')
+        for method in methods:
+            for M in (1, 3):
+                k += 1
+                add('C06/fixed-t', orc_fixed_t, dict(seed=9000 + k, n_rdm=(3, 6)[k % 2], n_cond=5, M=M, method=method, noise=0.5, sequence=True),
+                    'call-sequence', 'eval_fixed')
+        if False:  # pending triage: near-identical-models(diff-variance<eps)
+            # classical paired t of two models that differ by 1e-7 / 1e-9 (difference variance 4e-17 / 4e-21 < machine eps)
+            for method, near in (('cosine', 1e-7), ('corr', 1e-7), ('cosine', 1e-9), ('corr', 1e-9)):
+                k += 1
+                add('C06/fixed-t', orc_fixed_t, dict(seed=9000 + k, n_rdm=6, n_cond=5, M=2, method=method, noise=0.5, near=near,
+                                                     degenerate=1e-40, vatol=1e-12, vrtol=1e-3),
+                    'near-identical-models(diff-variance<eps)', 'eval_fixed')
+
+    # ---- contrasts ------------------------------------------------------------------------------------------------------------
+    ns = ((None, None), (2, None), (None, 7), (3, 7), (40, 16))
+    k = 0
+    for seed in range(seeds):
+        for unit in (1e-13, 1e-6, 1e3, 1e6):
+            for M in (1, 2, 3, 4):
+                for kind in ('scalar', 'vector', 'matrix', 'sentinel'):
+                    for ncrows in (False, True):
+                        if kind == 'scalar' and (M != 1 or ncrows):
+                            continue
+                        k += 1
+                        n_rdm, n_pattern = ns[k % len(ns)]
+                        route = ('Result', 'extract')[k % 2]
+                        add('C06/contrasts', orc_contrasts, dict(seed=seed + 50, M=M, cov=kind, ncrows=ncrows, n_rdm=n_rdm, n_pattern=n_pattern,
+                                                                 route=route, unit=unit), 'extreme-units',
+                            'Result.__init__' if route == 'Result' else 'extract_variances')
+        for vdt in ('int64', 'int32', 'int16', 'float32', 'uint8'):
+            for M in (1, 2, 3, 4):
+                for kind in (('vector', 'matrix') if vdt == 'uint8' else ('vector', 'matrix', 'sentinel')):
+                    for ncrows in (False, True):
+                        k += 1
+                        n_rdm, n_pattern = ns[k % len(ns)]
+                        route = ('Result', 'extract')[k % 2]
+                        add('C06/contrasts', orc_contrasts, dict(seed=seed + 60, M=M, cov=kind, ncrows=ncrows, n_rdm=n_rdm, n_pattern=n_pattern,
+                                                                 route=route, vdtype=vdt, vmul=(40 if vdt == 'uint8' else 4)),
+                            f'dtype={vdt}' + (',contrasts-in-range' if vdt == 'uint8' else ''),
+                            'Result.__init__' if route == 'Result' else 'extract_variances')
+        if False:  # pending triage: uint8-covariance-contrast-overflow
+            for M in (2, 3):
+                for route in ('Result', 'extract'):
+                    # uint8 covariance (entries <= 255) whose contrasts (~270) do not fit into uint8
+                    add('C06/contrasts', orc_contrasts, dict(seed=seed + 61, M=M, cov='matrix', ncrows=True, n_rdm=5, n_pattern=None, route=route,
+                                                             vdtype='uint8', vmul=150), 'uint8-covariance-contrast-overflow',
+                        'Result.__init__' if route == 'Result' else 'extract_variances')
+        for lay in LAYOUTS:
+            for kind in ('vector', 'matrix', 'sentinel'):
+                for M in (1, 3):
+                    k += 1
+                    n_rdm, n_pattern = ns[k % len(ns)]
+                    route = ('Result', 'extract')[k % 2]
+                    add('C06/contrasts', orc_contrasts, dict(seed=seed + 70, M=M, cov=kind, ncrows=bool(k % 2), n_rdm=n_rdm, n_pattern=n_pattern,
+                                                             route=route, layout=lay), f'layout={lay}',
+                        'Result.__init__' if route == 'Result' else 'extract_variances')
+        for nt in NTYPES:
+            for kind in ('vector', 'matrix'):
+                for n_rdm, n_pattern in ((2, None), (None, 7), (3, 7), (40, 16)):
+                    k += 1
+                    route = ('Result', 'extract')[k % 2]
+                    add('C06/contrasts', orc_contrasts, dict(seed=seed + 80, M=2 + k % 2, cov=kind, ncrows=bool(k % 2), n_rdm=n_rdm,
+                                                             n_pattern=n_pattern, route=route, ntype=nt), f'n-type={nt}',
+                        'Result.__init__' if route == 'Result' else 'extract_variances')
+        for route in ('Result', 'extract'):
+            for n_rdm, n_pattern in ns:
+                add('C06/contrasts', orc_contrasts, dict(seed=seed + 90, M=1, cov='scalar', ncrows=False, n_rdm=n_rdm, n_pattern=n_pattern,
+                                                         route=route, container='npfloat'), 'scalar-as-numpy-float',
+                    'Result.__init__' if route == 'Result' else 'extract_variances')
+        for M in ((6, 8, 10, 13) if thorough else (6, 9)):
+            for kind in ('vector', 'matrix', 'sentinel'):
+                for ncrows in (False, True):
+                    k += 1
+                    n_rdm, n_pattern = ns[k % len(ns)]
+                    route = ('Result', 'extract')[k % 2]
+                    add('C06/contrasts', orc_contrasts, dict(seed=seed + 95, M=M, cov=kind, ncrows=ncrows, n_rdm=n_rdm, n_pattern=n_pattern,
+                                                             route=route), 'more-models', 'Result.__init__' if route == 'Result' else 'extract_variances')
+
+    # ---- dual bootstrap -------------------------------------------------------------------------------------------------------
+    dual_ns = ((None, None), (2, 2), (3, 40), (12, 20), (6, None))
+    trivial = [('zero', 0.0, 0.0), ('scaled', 1.0, 1.0), ('scaled', 1.0, 0.0), ('scaled', 0.0, 1.0), ('scaled', 0.0, 0.0),
+               ('additive', 0.5, None), ('additive', 0.25, None), ('additive', 1.0, None), ('scaled', 0.999999, 0.999999),
+               ('scaled', 1.000001, 0.5)]
+    some = [('scaled', 0.45, 0.4), ('scaled', 1.1, 0.2), ('mixed', 0.5, 0.3), ('independent', 0.6, 0.1)]
+    k = 0
+    for seed in range(seeds):
+        todo = []
+        for M in (1, 2, 3):
+            for ncrows in (False, True):
+                for n_rdm, n_pattern in dual_ns:
+                    for mode, s1, s2 in trivial:
+                        todo.append((dict(M=M, ncrows=ncrows, n_rdm=n_rdm, n_pattern=n_pattern, mode=mode, s1=s1, s2=s2), 'trivial-and-close-competitors'))
+                for mode, s1, s2 in some:
+                    for unit in (1e-13, 1e-6, 1e3, 1e6):
+                        k += 1
+                        n_rdm, n_pattern = dual_ns[k % len(dual_ns)]
+                        todo.append((dict(M=M, ncrows=ncrows, n_rdm=n_rdm, n_pattern=n_pattern, mode=mode, s1=s1, s2=s2, unit=unit), 'extreme-units'))
+                    for vdt in ('int64', 'int16', 'float32'):
+                        k += 1
+                        n_rdm, n_pattern = dual_ns[k % len(dual_ns)]
+                        todo.append((dict(M=M, ncrows=ncrows, n_rdm=n_rdm, n_pattern=n_pattern, mode=mode, s1=s1, s2=s2, vdtype=vdt), f'dtype={vdt}'))
+                    k += 1
+                    n_rdm, n_pattern = dual_ns[k % len(dual_ns)]
+                    todo.append((dict(M=M, ncrows=ncrows, n_rdm=n_rdm, n_pattern=n_pattern, mode=mode, s1=s1, s2=s2, layout=LAYOUTS[k % 4]), 'layout'))
+        for j, (c, ic) in enumerate(todo):
+            c = dict(c, seed=seed + 40, route=('Result', 'extract')[j % 2])
+            add('C06/dual-bounds', orc_dual_bounds, c, ic, '_dual_bootstrap')
+            add('C06/dual-formula', orc_dual_formula, c, ic, '_dual_bootstrap')
+
+    # ---- Result-based oracles: one list of variations, applied to seeded base cases -------------------------------------------
+    def base(i, nd=None, M=None, **kwargs):
+        nd = nd or (2, 3, 4, 5)[i % 4]
+        c = dict(seed=12000 + i, M=M or 1 + i % 4, N=(8, 12, 20)[i % 3], tail=list(TAILS[nd]), cov=('vector', 'matrix', 'stack')[i % 3],
+                 ncrows=bool(i % 2), ncshape=('1d', '2d', '3d')[i % 3], dof=(1, 2, 5, 30)[i % 4], n_rdm=(None, 4, 9)[i % 3],
+                 n_pattern=(None, 6)[i % 2], cvm=BOOT_CV[i % len(BOOT_CV)])
+        c.update(kwargs)
+        return c
+    variations = ([(dict(unit=u), 'extreme-units') for u in (1e-3, 1e3, 1e6, 1e12)]
+                  + [(dict(unit=100.0, edtype=dt), f'evaluations-dtype={dt}') for dt in ('int64', 'int16', 'uint8')]
+                  + [(dict(edtype='float32', nan=nan), 'evaluations-dtype=float32') for nan in ('none', 'samples')]
+                  + [(dict(vdtype='float32'), 'covariance-dtype=float32')]
+                  + [(dict(layout=lay, nan=('none', 'samples')[j % 2]), f'layout={lay}') for j, lay in enumerate(LAYOUTS)]
+                  + [(dict(ntype=nt), f'n-type={nt}') for nt in NTYPES]
+                  + [(dict(mcontainer='tuple'), 'models-tuple'), (dict(mcontainer='single', M=1, cov='scalar', ncrows=False), 'single-model-not-in-list'),
+                     (dict(nccontainer='list', ncshape='1d'), 'ceiling-list'), (dict(nccontainer='tuple', ncshape='2d'), 'ceiling-tuple'),
+                     (dict(names='dup'), 'duplicate-model-names')]
+                  + [(dict(tail=list(t)), 'single-element-dimensions') for t in SINGLETON_TAILS]
+                  + [(dict(N=1), 'one-sample'), (dict(N=2), 'two-samples'), (dict(N=1, tail=[1]), 'one-sample'),
+                     (dict(N=2, tail=[1, 1]), 'two-samples')])
+    i = 0
+    for seed in range(seeds):
+        for rep in range(2):
+            for extra, ic in variations:
+                i += 1
+                c = base(i, **extra)
+                if c.get('tail') is not None and 'tail' in extra:
+                    c['ncshape'] = ('1d', '2d', '3d')[i % 3]
+                add('C06/t-coherence', orc_t_coherence, c, ic, 't_tests')
+                add('C06/sem-ci', orc_sem_ci, dict(c, ci=[0.5, 0.9, 0.95]), ic, 'Result.get_sem')
+                cm = dict(c)
+                add('C06/means', orc_means, dict(seed=cm['seed'], M=cm['M'], N=cm['N'], tail=cm['tail'], nan=cm.get('nan', 'none'), cvm=cm['cvm'],
+                                                 **{q: cm[q] for q in ('unit', 'edtype', 'layout') if q in cm}), ic, 'Result.get_means')
+        if False:  # pending triage: tiny-units(variance<eps)
+            # variances below machine eps (evaluations in units of 1e-9 / 1e-12): the t-tests clamp the variance at eps
+            for unit in (1e-9, 1e-12):
+                for nd in (2, 3):
+                    i += 1
+                    add('C06/t-coherence', orc_t_coherence, base(i, nd=nd, M=3, cov='matrix', unit=unit), 'tiny-units(variance<eps)', 't_tests')
+        for unit in (1e-13, 1e-26, 1e-9):
+            for nd in (2, 3):
+                i += 1
+                c = base(i, nd=nd, unit=unit)
+                add('C06/sem-ci', orc_sem_ci, dict(c, ci=[0.5, 0.9, 0.95]), 'extreme-units', 'Result.get_sem')
+                add('C06/means', orc_means, dict(seed=c['seed'], M=c['M'], N=c['N'], tail=c['tail'], nan='samples', cvm=c['cvm'], unit=unit),
+                    'extreme-units', 'Result.get_means')
+
+    # ---- ranges: every unit, dtype, size ---------------------------------------------------------------------------------------------
+    i = 0
+    for seed in range(seeds):
+        for extra, ic in variations + [(dict(unit=u), 'extreme-units') for u in (1e-26, 1e-12, 1e-9)]:
+            for ties in ((False, True) if thorough else (None,)):
+                i += 1
+                ties = bool(i % 2) if ties is None else ties
+                c = base(i, **dict(dict(ties=ties, ncrows=True), **extra))
+                c['seed'] = 13000 + i
+                add('C06/p-range', orc_p_range, dict(c, tests=['t-test'], ncshape=('1d', '2d')[i % 2]), ic, 't_tests')
+                add('C06/p-range', orc_p_range, dict(c, tests=['bootstrap'], ncshape='1d'), ic, 'bootstrap_pair_tests')
+                if 'tail' not in extra and c.get('nan', 'none') != 'folds':
+                    add('C06/p-range', orc_p_range, dict(c, tests=['ranksum'], tail=[(5, 6, 9)[i % 3]], nclevel=0.32, ncshape=('1d', '2d')[i % 2]),
+                        ic, 'ranksum_pair_test')
+        for S in (1, 2, 3, 4):
+            for M in (1, 2, 3):
+                i += 1
+                add('C06/p-range', orc_p_range, dict(base(i, nd=3, M=M, ncrows=True), tests=['ranksum'], tail=[S], nclevel=0.32, ncshape='1d'),
+                    'ranksum,few-subjects', 'ranksum_pair_test')
+
+    # ---- bootstrap formulas --------------------------------------------------------------------------------------------------------------
+    i = 0
+    for seed in range(seeds):
+        for extra, ic in ([(dict(unit=u), 'extreme-units') for u in (2.0 ** -87, 1e-12, 1e6, 2.0 ** 40)]
+                          + [(dict(unit=100.0, edtype=dt), f'evaluations-dtype={dt}') for dt in ('int64', 'int16', 'uint8')]
+                          + [(dict(edtype='float32'), 'evaluations-dtype=float32')]
+                          + [(dict(layout=lay), f'layout={lay}') for lay in LAYOUTS]
+                          + [(dict(N=1), 'one-sample'), (dict(N=2), 'two-samples')]):
+            for ties in (False, True):
+                for route in ('Result', 'wrapper'):
+                    i += 1
+                    b = dict(dict(seed=14000 + i, M=2 + i % 3, N=(5, 10, 17, 40)[i % 4], tail=[], ties=ties, route=route), **extra)
+                    add('C06/bootstrap-pairwise', orc_bootstrap_formulas, dict(b, which='pairwise', tail=list(TAILS[(2, 3, 4)[i % 3]])), ic,
+                        'bootstrap_pair_tests')
+                    add('C06/bootstrap-zero-ceiling', orc_bootstrap_formulas, dict(b, which='zero'), ic, 'zero_tests')
+                    add('C06/bootstrap-zero-ceiling', orc_bootstrap_formulas, dict(b, which='noise', ncshape='1d'), ic, 'nc_tests')
+                    add('C06/bootstrap-zero-ceiling', orc_bootstrap_formulas, dict(b, which='all', ncshape=('1d', '2d')[i % 2]), ic, 'all_tests')
+        for t in SINGLETON_TAILS:
+            for ties in (False, True):
+                i += 1
+                add('C06/bootstrap-pairwise', orc_bootstrap_formulas, dict(seed=14000 + i, M=2 + i % 3, N=(5, 10, 17)[i % 3], tail=list(t), ties=ties,
+                                                                           route=('Result', 'wrapper')[i % 2], which='pairwise'),
+                    'single-element-dimensions', 'bootstrap_pair_tests')
+
+    # ---- ranksum ---------------------------------------------------------------------------------------------------------------------------
+    i = 0
+    for seed in range(seeds):
+        for extra, ic in ([(dict(unit=u), 'extreme-units') for u in (2.0 ** -87, 1e-12, 1e6, 2.0 ** 40)]
+                          + [(dict(unit=100.0, edtype=dt), f'evaluations-dtype={dt}') for dt in ('int64', 'int16', 'uint8')]
+                          + [(dict(layout=lay), f'layout={lay}') for lay in LAYOUTS]
+                          + [(dict(tail=[S]), 'few-subjects') for S in (1, 2, 3, 4)] + [(dict(names='dup'), 'duplicate-model-names')]):
+            for ties in (False, True):
+                i += 1
+                S = extra.get('tail', [((5, 7, 9, 12) if thorough else (5, 6, 7, 8))[i % 4]])[0]
+                N = (1, 6, 12)[i % 3]
+                add('C06/ranksum', orc_ranksum, dict(dict(seed=15000 + i, M=1 + i % 4, N=N, tail=[S], nan='none', ties=ties, cov='matrix', ncrows=True,
+                                                          ncshape=('1d', '2d')[i % 2], dof=max(S - 1, 1), n_rdm=max(S, 2), nclevel=0.32,
+                                                          cvm='fixed' if N == 1 else 'bootstrap_rdm'), **extra), ic, 'ranksum_pair_test')
+
+    # ---- monotonicity ------------------------------------------------------------------------------------------------------------------------
+    deltas = [-40.0, -3.0, -0.7, -0.3, -0.1, -0.03, 0.0, 0.01, 0.04, 0.1, 0.25, 0.6, 1.5, 8.0, 100.0]
+    i = 0
+    for seed in range(seeds):
+        for extra, ic in ([(dict(unit=u), 'extreme-units') for u in (1e-12, 1e-3, 1e6, 1e12)]
+                          + [(dict(unit=100.0, edtype=dt), f'evaluations-dtype={dt}') for dt in ('int64', 'int16')]
+                          + [(dict(layout='readonly'), 'layout=readonly')]):
+            for route in ('Result', 'direct'):
+                i += 1
+                add('C06/monotone', orc_monotone, dict(dict(seed=16000 + i, M=2 + i % 3, N=9, tail=list(TAILS[(2, 3, 4)[i % 3]]), dof=(1, 2, 7, 40)[i % 4],
+                                                            route=route, target=i % (2 + i % 3), deltas=deltas, scale=(1e-4, 0.004, 0.1, 1.0)[i % 4],
+                                                            nan='none'), **extra), ic, 't_tests' if route == 'direct' else 'Result.test_pairwise')
+
+    # ---- equivariance ---------------------------------------------------------------------------------------------------------------------
+    i = 0
+    for seed in range(seeds):
+        for extra, ic in ([(dict(unit=u), 'extreme-units') for u in (1e-6, 1e6)]
+                          + [(dict(unit=100.0, edtype=dt), f'evaluations-dtype={dt}') for dt in ('int64', 'uint8')]
+                          + [(dict(layout=lay), f'layout={lay}') for lay in ('F', 'strided')]
+                          + [(dict(names='dup'), 'duplicate-model-names')]
+                          + [(dict(tail=list(t)), 'single-element-dimensions') for t in ((1,), (1, 1), (3, 1))]
+                          + [(dict(N=1), 'one-sample'), (dict(N=2), 'two-samples')]):
+            for M in ((2, 3, 4) if thorough else ((2, 3)[(i // 2) % 2],)):
+                i += 1
+                c = base(i, M=M, ties=bool(i % 2), ci=[0.9], **extra)
+                c['seed'] = 17000 + i
+                add('C06/equivariance', orc_equivariance, dict(c, tests=['t-test']), ic, 't_tests')
+                add('C06/equivariance', orc_equivariance, dict(c, tests=['bootstrap'], ncshape='1d'), ic, 'bootstrap_pair_tests')
+                if 'tail' not in extra:
+                    add('C06/equivariance', orc_equivariance, dict(c, tests=['ranksum'], tail=[(6, 8)[i % 2]], nclevel=0.32, ncshape=('1d', '2d')[i % 2]),
+                        ic, 'ranksum_pair_test')
+
+    # ---- call sequences ----------------------------------------------------------------------------------------------------------------------
+    i = 0
+    for seed in range(seeds):
+        for nd in (2, 3, 4):
+            for M in (1, 2, 3):
+                for cov in ('vector', 'matrix', 'stack'):
+                    for lay in ((None, 'readonly') if thorough else ((None, 'readonly')[(nd + M + len(cov)) % 2],)):
+                        i += 1
+                        c = base(i, nd=nd, M=M, cov=cov, layout=lay, ties=bool(i % 2), nan=('none', 'samples')[(i // 2) % 2])
+                        c['seed'] = 18000 + i
+                        tests = ['t-test', 'bootstrap'] + (['ranksum'] if nd == 3 else [])
+                        if nd == 3:
+                            c.update(tail=[(6, 8)[i % 2]], nclevel=0.32)
+                        add('C06/call-sequence', orc_call_sequence, dict(c, tests=tests, ncshape='1d'), 'read-only-inputs' if lay else 'plain',
+                            'Result')
+    return sw
+
+
+def _run_sweeps(bd, sw):
+    for orc, case, ic, fn in sw.get(bd.name, ()):
+        bd.check(orc, case, ic, function=fn)
 
 
 def tier_c(run, thorough):
     bds = []
+    sw = _sweeps(thorough)
 
     # ---- eval_fixed: classical t identities ---------------------------------------------------------------------------
     methods = ('cosine', 'corr', 'spearman', 'tau-a', 'rho-a', 'cosine_cov', 'corr_cov') if thorough else ('cosine', 'corr', 'spearman')
@@ -957,6 +1605,7 @@ def tier_c(run, thorough):
                     bd.check(orc_fixed_t, dict(seed=seed * 100 + n, n_rdm=n, n_cond=C, M=M, method=method,
                                                noise=(0.2, 0.5, 1.0)[(seed + M) % 3]),
                              'two-subjects' if n == 2 else 'generic', function='eval_fixed')
+    _run_sweeps(bd, sw)
     bd.done()
     bds.append(bd)
 
@@ -978,6 +1627,7 @@ def tier_c(run, thorough):
                                                          n_pattern=n_pattern, route=route),
                                      f'{kind},{"with" if ncrows else "no"}-ceiling-rows',
                                      function='Result.__init__' if route == 'Result' else 'extract_variances')
+    _run_sweeps(bd, sw)
     bd.done()
     bds.append(bd)
 
@@ -1004,6 +1654,7 @@ def tier_c(run, thorough):
                                                n_pattern=n_pattern, route=route),
                                      ('few-rdms-or-patterns' if few else ('uncorrected' if None in (n_rdm, n_pattern) else 'corrected')),
                                      function='_dual_bootstrap')
+        _run_sweeps(bd, sw)
         bd.done()
         bds.append(bd)
 
@@ -1026,6 +1677,7 @@ def tier_c(run, thorough):
                                     n_rdm=(None, 4, 9)[i % 3], n_pattern=(None, 6)[i % 2],
                                     cvm=BOOT_CV[i % len(BOOT_CV)])
                         bd.check(orc_t_coherence, case, f'{nd}-D,nan={nan}', function='t_tests')
+    _run_sweeps(bd, sw)
     bd.done()
     bds.append(bd)
 
@@ -1054,6 +1706,7 @@ def tier_c(run, thorough):
                         if nd == 3 and nan != 'folds':
                             bd.check(orc_p_range, dict(base, tests=['ranksum'], nclevel=0.32, ncshape=('1d', '2d')[i % 2]),
                                      'ranksum' + (',ties' if ties else ''), function='ranksum_pair_test')
+    _run_sweeps(bd, sw)
     bd.done()
     bds.append(bd)
 
@@ -1097,6 +1750,7 @@ def tier_c(run, thorough):
             bdz.check(orc_bootstrap_formulas, dict(base, which='all', ncshape='1d', special='nc-all-above'),
                       'bootstrap-nc-all-above:all_tests', function='all_tests')
     for bd in (bdp, bdz):
+        _run_sweeps(bd, sw)
         bd.done()
         bds.append(bd)
 
@@ -1117,6 +1771,7 @@ def tier_c(run, thorough):
                                                    ncrows=True, ncshape=('1d', '2d')[i % 2], dof=S - 1, n_rdm=S, nclevel=0.32,
                                                    cvm='fixed' if (N == 1 and nan == 'none') else 'bootstrap_rdm'),
                                  ('ties' if ties else 'continuous') + f',nan={nan}', function='ranksum_pair_test')
+    _run_sweeps(bd, sw)
     bd.done()
     bds.append(bd)
 
@@ -1137,6 +1792,7 @@ def tier_c(run, thorough):
                                                     target=i % M, deltas=deltas, scale=(1e-4, 0.004, 0.1, 1.0)[i % 4],
                                                     nan=('none', 'samples')[i % 2]),
                                  f'dof={dof}', function='t_tests' if route == 'direct' else 'Result.test_pairwise')
+    _run_sweeps(bd, sw)
     bd.done()
     bds.append(bd)
 
@@ -1166,6 +1822,7 @@ def tier_c(run, thorough):
                 i += 1
                 bd.check(orc_means, dict(seed=6000 * seed + i, M=M, N=7, tail=list(TAILS[nd]), nan='single-model', nan_sample=3,
                                          nan_model=k, cvm='bootstrap'), 'nan-single-model', function='Result.get_means')
+    _run_sweeps(bd, sw)
     bd.done()
     bds.append(bd)
 
@@ -1188,6 +1845,7 @@ def tier_c(run, thorough):
                                                   cov=cov, ncrows=ncrows, dof=(1, 4, 25)[i % 3], n_rdm=(None, 3, 10)[i % 3],
                                                   n_pattern=(None, 8)[i % 2], ci=[0.5, 0.9, 0.95, 0.99]),
                                  'negative-variance-entry' if cov == 'negative' else cov, function='Result.get_sem')
+    _run_sweeps(bd, sw)
     bd.done()
     bds.append(bd)
 
@@ -1228,6 +1886,35 @@ def tier_c(run, thorough):
                         if nd == 3 and M <= 4:
                             bd.check(orc_equivariance, dict(base, tests=['ranksum'], nclevel=0.32, ncshape=('1d', '2d')[i % 2]),
                                      'ranksum,ties' if ties else 'ranksum', function='ranksum_pair_test')
+    _run_sweeps(bd, sw)
+    bd.done()
+    bds.append(bd)
+
+    # ---- call sequences -----------------------------------------------------------------------------------------------------
+    bd = Bounded(run, 'C06/call-sequence', 'C06/Result/oracle/outputs-depend-on-own-inputs-only',
+                 'two Results of the same shapes and parameters but other content used alternately (2..4-D, 1..3 models, vector / matrix / '
+                 '3-stack covariance, t-test + bootstrap (+ ranksum for 3-D), NaN samples, partial ties): same call twice bit-identical, held '
+                 'outputs unchanged, second Result reports its own means / contrasts / bootstrap p-values, rebuilt Result bit-identical, '
+                 'inputs of Result, the test wrappers and extract_variances unchanged (plain and read-only arrays); %d seeds; eval_fixed '
+                 'sequences are in C06/fixed-t (class call-sequence)' % (3 if thorough else 1), function='Result')
+    _run_sweeps(bd, sw)
+    bd.done()
+    bds.append(bd)
+
+    # ---- another interpreter, another hash seed -----------------------------------------------------------------------------------
+    hseeds = (1, 4242, 4294967295) if thorough else (1,)
+    bd = Bounded(run, 'C06/hashseed', 'C06/Result/oracle/same-outputs-under-another-hash-seed',
+                 'a fresh interpreter with PYTHONHASHSEED in %s: all outputs (variances, means, SEM, CI, p-values of the three test types) of 3 '
+                 'seeded Results and of eval_fixed (cosine, spearman) are bit-identical to those of this process' % (list(hseeds),),
+                 function='Result')
+    for hs in hseeds:
+        subs = [dict(seed=19000 + hs % 1000 + j, M=(3, 2, 4)[j], N=(12, 9, 20)[j], tail=[[6], [], [3, 2]][j], cov=('matrix', 'vector', 'stack')[j],
+                     ncrows=bool(j % 2), ncshape='1d', dof=(5, 2, 30)[j], n_rdm=(6, None, 9)[j], n_pattern=(None, 7, 6)[j], ties=bool(j % 2),
+                     nclevel=0.32 if j == 0 else 0.6, tests=(['t-test', 'bootstrap', 'ranksum'] if j == 0 else ['t-test', 'bootstrap']))
+                for j in range(3)]
+        fixed = [dict(seed=19500 + hs % 1000 + j, n_rdm=(5, 4)[j], n_cond=5, M=(3, 2)[j], method=('cosine', 'spearman')[j], noise=0.5)
+                 for j in range(2)]
+        bd.check(orc_hashseed, dict(hashseed=hs, cases=subs, fixed=fixed), 'new-interpreter', function='Result')
     bd.done()
     bds.append(bd)
     return bds
